@@ -311,6 +311,17 @@ package fit
 //@   reveal tables
 //@   concl knownMsgNums[m] ==> m < 0xFF00 && int(m) < len(newMesgFuncs) && int(m) < len(_fields)
 
+//@@ field 253, where a message has it, is the scalar UTC timestamp stored in a time.Time struct field
+//@ lemma timestamp_field(m MesgNum)
+//@   props C01 C12 C15
+//@   reveal tables, rvtables
+//@   concl pfound(m, 253) ==> knownMsgNums[m] && 0 <= pf(m, 253).sindex && pf(m, 253).sindex < rvNumField(int(m)) && rvTypeTag(int(m), pf(m, 253).sindex) == typetag[time.Time]() && fkind(pf(m, 253).t) == 1 && !farray(pf(m, 253).t) && pf(m, 253).num == 253
+
+//@ lemma fileid_known()
+//@   props C01 C15
+//@   reveal tables
+//@   concl knownMsgNums[MesgNumFileId]
+
 //@ lemma fields_rows_known(m MesgNum)
 //@   props C01 C15
 //@   reveal tables
@@ -466,3 +477,119 @@ package fit
 //@   loop 4 invariant [range] -1 <= rangeindex && rangeindex < len(dm.devDataFieldDescs)
 //@   loop 4 assigns d.tmp[..], d.bytes.buf[..]
 //@   loop 4 decreases len(dm.devDataFieldDescs) - rangeindex
+
+//@@ the local message type a record header addresses (C13): low 4 bits, or bits 5-6 of a compressed-timestamp header
+//@ spec pure slotOf(recordHeader byte, compressed bool) byte := ite(compressed, (recordHeader&0x60)>>5, recordHeader&0x0F)
+
+//@ func (d *decoder) parseDataMessage(recordHeader byte, compressed bool) (r reflect.Value, err error)
+//@   props C01 C10 C11 C13
+//@   reveal compat
+//@   use known_bound(d.defmsgs[slotOf(recordHeader, compressed)].globalMsgNum)
+//@   use timestamp_field(d.defmsgs[slotOf(recordHeader, compressed)].globalMsgNum)
+//@   requires dec_inv(d) && inv_defs(d)
+//@   ensures [inv] dec_inv(d) && inv_defs(d)
+//@   ensures [step] dec_step(d, old(d.bytes.n), old(d.bytes.limit), old(framepos(d)), old(pos(d.r)))
+//@   ensures [inv-time] old(inv_time(d)) ==> inv_time(d)
+//@   ensures [result] err == nil && rvvalid(r) ==> rvmt(r) < 0xFF00 && knownMsgNums[MesgNum(rvmt(r))] && rvismsg(r, rvmt(r))
+//@   ensures [undefined-slot] old(d.defmsgs[slotOf(recordHeader, compressed)]) == nil ==> err != nil
+//@   ensures [valid-iff-known] err == nil ==> (rvvalid(r) <==> knownMsgNums[old(d.defmsgs[slotOf(recordHeader, compressed)]).globalMsgNum])
+//@   ensures [msg-of-slot] err == nil && rvvalid(r) ==> rvmt(r) == int(old(d.defmsgs[slotOf(recordHeader, compressed)]).globalMsgNum)
+//@   assigns d.bytes.i, d.bytes.j, d.bytes.n, d.bytes.buf[..], d.tmp[..], pos(d.r), dyncrc16.GhostSum(d.crc)
+//@   assigns d.timestamp, d.lastTimeOffset, d.unknownFields[..], d.unknownMessages[..]
+
+//@@ ------------------------------------------------------------------ file.go
+
+//@@ a File whose container has been chosen: the router is the container of FileId.Type
+//@@ (*File happens to have the method set of msgAdder but is never used as one)
+//@ pred file_ready(f *File) := f.msgAdder != nil && !typeis[*File](f.msgAdder)
+
+//@ func (m msgAdder) add(msg reflect.Value)
+//@   props C01 C03
+//@   requires rvvalid(msg) && !typeis[*File](m)
+//@   assigns ifaceobj(m)
+
+//@ func (f *File) add(msg reflect.Value)
+//@   props C01 C03
+//@   nosubtype
+//@   requires [valid] rvvalid(msg)
+//@   requires [router] typeis[FileIdMsg](ifaceOf(msg)) || file_ready(f)
+//@   ensures [ready] old(file_ready(f)) ==> file_ready(f)
+//@   ensures [router-kept] same(f.msgAdder, old(f.msgAdder))
+//@   assigns f.FileId, f.FileCreator, f.TimestampCorrelation, f.fieldDescriptionMsgs, f.developerDataIdMsgs, ifaceobj(f.msgAdder)
+
+//@ func (f *File) init() (err error)
+//@   props C01 C03
+//@   ensures [ready] err == nil ==> file_ready(f) && fresh(f.msgAdder)
+//@   assigns f.msgAdder, f.activity, f.device, f.settings, f.sport, f.workout, f.course, f.schedules, f.weight, f.totals, f.goals, f.bloodPressure, f.monitoringA, f.activitySummary, f.monitoringDaily, f.monitoringB, f.segment, f.segmentList
+
+//@ func (f *File) Type() (r FileType)
+//@   props C03
+//@   ensures r == f.FileId.Type
+//@   assigns nothing
+
+//@@ ------------------------------------------------------------------ reader.go: record loop and entry points
+
+//@ pred file_inv(d *decoder) := d.file != nil
+
+//@ func (d *decoder) parseFileIdMsg() (err error)
+//@   props C01 C10 C11 C13
+//@   use fileid_known()
+//@   requires dec_inv(d) && inv_defs(d) && file_inv(d)
+//@   requires [fresh-slots] forall s in 0..16 :: d.defmsgs[s] == nil
+//@   ensures [inv] dec_inv(d) && inv_defs(d) && file_inv(d)
+//@   ensures [step] dec_step(d, old(d.bytes.n), old(d.bytes.limit), old(framepos(d)), old(pos(d.r)))
+//@   ensures [inv-time] old(inv_time(d)) ==> inv_time(d)
+//@   ensures [file] d.file == old(d.file) && same(d.file.msgAdder, old(d.file.msgAdder))
+//@   assigns d.bytes.i, d.bytes.j, d.bytes.n, d.bytes.buf[..], d.tmp[..], pos(d.r), dyncrc16.GhostSum(d.crc)
+//@   assigns d.timestamp, d.lastTimeOffset, d.unknownFields[..], d.unknownMessages[..], d.defmsgs
+//@   assigns d.file.FileId, d.file.FileCreator, d.file.TimestampCorrelation, d.file.fieldDescriptionMsgs, d.file.developerDataIdMsgs, ifaceobj(d.file.msgAdder)
+
+//@ func (d *decoder) decodeFileData() (err error)
+//@   props C01 C10 C11 C13
+//@   requires dec_inv(d) && inv_defs(d) && file_inv(d) && file_ready(d.file)
+//@   ensures [inv] dec_inv(d) && inv_defs(d) && file_inv(d)
+//@   ensures [step] dec_step(d, old(d.bytes.n), old(d.bytes.limit), old(framepos(d)), old(pos(d.r)))
+//@   ensures [complete] err == nil ==> d.bytes.n == d.bytes.limit
+//@   ensures [inv-time] old(inv_time(d)) ==> inv_time(d)
+//@   assigns d.bytes.i, d.bytes.j, d.bytes.n, d.bytes.buf[..], d.tmp[..], pos(d.r), dyncrc16.GhostSum(d.crc)
+//@   assigns d.timestamp, d.lastTimeOffset, d.unknownFields[..], d.unknownMessages[..], d.defmsgs
+//@   assigns d.file.FileId, d.file.FileCreator, d.file.TimestampCorrelation, d.file.fieldDescriptionMsgs, d.file.developerDataIdMsgs, ifaceobj(d.file.msgAdder)
+//@   loop 0 invariant [inv] dec_inv(d) && inv_defs(d) && file_inv(d) && file_ready(d.file) && d.file == old(d.file) && same(d.file.msgAdder, old(d.file.msgAdder))
+//@   loop 0 invariant [step] dec_step(d, old(d.bytes.n), old(d.bytes.limit), old(framepos(d)), old(pos(d.r))) && (old(inv_time(d)) ==> inv_time(d))
+//@   loop 0 assigns d.tmp[..], d.bytes.buf[..], d.unknownFields[..], d.unknownMessages[..], d.file.FileId, d.file.FileCreator, d.file.TimestampCorrelation, d.file.fieldDescriptionMsgs, d.file.developerDataIdMsgs, ifaceobj(d.file.msgAdder)
+//@   loop 0 decreases d.bytes.limit - d.bytes.n
+
+//@ func (d *decoder) checkCRC() (err error)
+//@   props C01 C10 C11 C04
+//@   requires inv_io(d) && file_inv(d)
+//@   ensures [inv] inv_io(d)
+//@   ensures [consumed] err == nil ==> pos(d.r) == old(pos(d.r))+2
+//@   ensures [bounded] pos(d.r) >= old(pos(d.r)) && pos(d.r) <= old(pos(d.r))+2
+//@   assigns d.tmp[..], pos(d.r), dyncrc16.GhostSum(d.crc), d.file.CRC
+
+//@@ assumed for now (range over a map, sort.Sort): export of the unknown-item counters
+//@ func (d *decoder) handleUnknownFields()
+//@   props C01 C16
+//@   trusted
+//@   requires file_inv(d)
+//@   assigns d.file.UnknownFields
+
+//@ func (d *decoder) handleUnknownMessages()
+//@   props C01 C16
+//@   trusted
+//@   requires file_inv(d)
+//@   assigns d.file.UnknownMessages
+
+//@ pred fresh_decoder(d *decoder) := !d.debug && d.bytes.i == 0 && d.bytes.j == 0 && d.bytes.n == 0 && d.timestamp == 0 && d.lastTimeOffset == 0 && d.file == nil && d.unknownFields == nil && d.unknownMessages == nil && (forall s in 0..16 :: d.defmsgs[s] == nil)
+
+//@ func (d *decoder) decode(r io.Reader, headerOnly bool, fileIDOnly bool, crcOnly bool) (err error)
+//@   props C01 C10 C11
+//@   requires [reader] r != nil
+//@   requires [fresh] fresh_decoder(d)
+//@   ensures [exact] err == nil && !headerOnly && !fileIDOnly ==> pos(r) == old(pos(r))+int(d.h.Size)+int(d.h.DataSize)+2
+//@   ensures [header-only] err == nil && headerOnly ==> pos(r) == old(pos(r))+int(d.h.Size)
+//@   ensures [monotone] pos(r) >= old(pos(r))
+//@   ensures [never-past-frame] (d.h.Size == 12 || d.h.Size == 14) ==> pos(r) <= old(pos(r))+int(d.h.Size)+int(d.h.DataSize)+2
+//@   ensures [bad-header] !(d.h.Size == 12 || d.h.Size == 14) ==> pos(r) <= old(pos(r))+14
+//@   ensures [file] err == nil ==> d.file != nil
+//@   assigns allfields(d), pos(r)
